@@ -765,14 +765,18 @@ func (e *SpecEnv) call(n SCall) Val {
 		fmt.Sscanf(nl.V, "%d", &ord)
 		for _, li := range e.f.loops {
 			if li.ord == ord && li.headSt != nil {
-				ab, ok := li.headSt.H["G.alloc"]
-				if !ok {
-					ab = vc.heapInit("G.alloc", ArrSort(SInt, SBool))
-				}
-				return Val{K: KBool, T: Select(ab, e.term(xv))}
+				return Val{K: KBool, T: vc.isAllocated(li.headSt, e.term(xv))}
 			}
 		}
 		e.fail("allocatedAt: loop %d has no explicit frame (loop modifies) or is not active here", ord)
+	case "strbytes":
+		// strbytes(s): the bytes of string s as an array (what []byte(s) holds)
+		sv := e.Eval(n.Args[0])
+		if sv.K != KStr {
+			e.fail("strbytes() needs a string")
+		}
+		vc.decls.Fun("gstr.bytes", []Sort{SStr}, ArrSort(SInt, SInt))
+		return Val{K: KSpec, T: App(ArrSort(SInt, SInt), "gstr.bytes", sv.T)}
 	case "deref":
 		// deref(p): the value stored at pointer p (current state)
 		pv := e.Eval(n.Args[0])
@@ -830,7 +834,7 @@ func (e *SpecEnv) call(n SCall) Val {
 		return Val{K: KPtr, T: App(SInt, inv, e.term(v)), Typ: types.NewPointer(t)}
 	case "allocated":
 		v := e.Eval(n.Args[0])
-		return Val{K: KBool, T: Select(vc.heapGet(e.cur, "G.alloc", ArrSort(SInt, SBool)), e.term(v))}
+		return Val{K: KBool, T: vc.isAllocated(e.cur, e.term(v))}
 	case "typetag":
 		s, ok := n.Args[0].(SStrLit)
 		if !ok {
